@@ -163,6 +163,68 @@ class Shard:
         os.replace(tmp, path)
 
 
+def anchored_files(prop):
+    """Repository files a property is anchored in (properties.jsonl), as absolute paths under the repository being checked."""
+    out = []
+    try:
+        with open(os.path.join(VERIF, 'properties.jsonl')) as f:
+            for line in f:
+                rec = json.loads(line)
+                if rec.get('id') == prop:
+                    out = [os.path.realpath(os.path.join(REPO, p)) for p in rec.get('anchors', {}).get('files', [])]
+    except OSError:
+        pass
+    return out
+
+
+def _start_line_monitor(files):
+    """Which lines of the anchored Python files does this shard's workload execute?  sys.monitoring LINE events with per-location
+    DISABLE: every location fires at most once, so the overhead is negligible.  (JIT-compiled bodies execute no Python lines.)"""
+    mon = getattr(sys, 'monitoring', None)
+    if mon is None or not files:
+        return None
+    wanted = set(files)
+    hit = set()
+    try:
+        tool = mon.COVERAGE_ID
+        mon.use_tool_id(tool, 'vf-anchor-lines')
+
+        def on_line(code, line):
+            fn = code.co_filename
+            if fn in wanted or os.path.realpath(fn) in wanted:
+                hit.add((os.path.realpath(fn), line))
+            return mon.DISABLE
+        mon.register_callback(tool, mon.events.LINE, on_line)
+        mon.set_events(tool, mon.events.LINE)
+    except Exception:
+        return None
+    return hit
+
+
+def function_table(path, hit_lines):
+    """Per function of a source file: executable lines (from the compiled code objects) and how many of them were executed."""
+    try:
+        src = open(path).read()
+        top = compile(src, path, 'exec')
+    except Exception:
+        return []
+    rows = []
+
+    def walk(code, qual):
+        lines = {ln for _, _, ln in code.co_lines() if ln is not None and ln != code.co_firstlineno}
+        own = set(lines)
+        for const in code.co_consts:
+            if hasattr(const, 'co_lines'):
+                sub = walk(const, (qual + '.' if qual else '') + const.co_name)
+                own -= sub
+        if qual and own:
+            rows.append({'function': qual, 'line': code.co_firstlineno, 'executable_lines': len(own), 'executed_lines': len(own & hit_lines),
+                         'missed': sorted(own - hit_lines)[:25]})
+        return lines
+    walk(top, '')
+    return sorted(rows, key=lambda r: r['line'])
+
+
 def load_check(prop):
     return importlib.import_module('vf.checks.' + prop.lower())
 
@@ -187,10 +249,16 @@ def run_shard(prop, tier, seed, index, out_path):
     os.makedirs(wd, exist_ok=True)
     os.chdir(wd)
     sh = Shard(prop, tier, seed, spec['name'], wd)
+    lines_hit = _start_line_monitor(anchored_files(prop))
     try:
         getattr(mod, spec['fn'])(sh, **spec.get('args', {}))
     except Exception:  # harness failure inside a shard: inconclusive, never a violation
         sh.inconclusive_note('harness exception in shard %s: %s' % (spec['name'], traceback.format_exc()[-3000:]))
+    if lines_hit is not None:
+        agg = {}
+        for fn, ln in lines_hit:
+            agg.setdefault(fn, []).append(ln)
+        sh.data['lines_hit'] = {fn: sorted(v) for fn, v in agg.items()}
     sh.dump(out_path)
 
 
@@ -285,6 +353,19 @@ def run(prop, tier, seed, only_shard=None):
             info['evaluations'] = data['evaluations']
         merged['shards'].append(info)
 
+    all_hit = {}
+    for d in merged['data'].values():
+        for fn, lns in (d.get('lines_hit') or {}).items():
+            all_hit.setdefault(fn, set()).update(lns)
+    anchor_cov = {}
+    for fn in anchored_files(prop):
+        table = function_table(fn, all_hit.get(fn, set()))
+        if table:
+            rel = os.path.relpath(fn, os.path.realpath(REPO))
+            reached = [r for r in table if r['executed_lines']]
+            anchor_cov[rel] = {'functions_reached': [{k: r[k] for k in ('function', 'executable_lines', 'executed_lines', 'missed')} for r in reached],
+                               'functions_never_reached': [r['function'] for r in table if not r['executed_lines']],
+                               'executed_lines': sum(r['executed_lines'] for r in table), 'executable_lines': sum(r['executable_lines'] for r in table)}
     if hasattr(mod, 'post'):
         # cross-shard oracle (e.g. differential comparison of runs executed in separate processes)
         try:
@@ -345,6 +426,7 @@ def run(prop, tier, seed, only_shard=None):
             'classes_observed': dict(merged['classes']),
             'shards': merged['shards'],
             'notes': merged['notes'],
+            'anchored_python_lines_executed': anchor_cov,
             'verdict': status,
             'inconclusive_reasons': merged['inconclusive'][:10],
             'known_findings_hit': sorted(known_hits),
